@@ -36,6 +36,11 @@ func runC11Escalate(cs *Case, c *c10Case, sink *logSink, li *logging.Instance) {
 		emit(cs)
 		return
 	}
+	if c.WriteErr > 0 {
+		ws, _, _ := tr.Snapshot()
+		tr.SetWriteErr(len(ws) + c.WriteErr - 1)
+		cs.Kind += "/write-error"
+	}
 	tr.Mark('C')
 	t0 := time.Now()
 	e := d.AcquirePriv("privilege-exec")
@@ -68,6 +73,9 @@ func runC11Escalate(cs *Case, c *c10Case, sink *logSink, li *logging.Instance) {
 	}
 	cs.Obs = fmt.Sprintf("%s sync %s %s", out, hxList(wl), hx([]byte(cached)))
 	cs.Nontrivial = true
+	if c.WriteErr > 0 {
+		cs.Line = "" // failing writes are outside the model: log oracle only
+	}
 	if m := sink.containsAny(c.Secret); m != "" {
 		cs.Oracle = m
 		cs.Sig = "C11:secret-logged"
